@@ -1167,6 +1167,22 @@ func factsAt(in ssa.Instruction) []EdgeFact {
 			fs = append(fs, impliedByNilError(stripConv(x))...)
 		}
 	}
+	// `headers, send := st.claimHeadersLocked(); if send {…}` (also captured by a function literal): where the bool result of
+	// a private helper used only here is known, whatever holds at every return that can produce that result holds too
+	if crossWorld != nil {
+		for _, f := range append([]EdgeFact{}, fs...) {
+			if bt, isB := f.Cond.Type().Underlying().(*types.Basic); !isB || bt.Kind() != types.Bool {
+				continue
+			}
+			switch v := origin(f.Cond).(type) {
+			case *ssa.Call, *ssa.Extract:
+				fs = append(fs, impliedByBoolResult(v, f.True)...)
+			case *ssa.Phi:
+				// a flag variable set in the arms of a switch (`case ZERO: plain = true; case ONE: plain = false`)
+				fs = append(fs, impliedByBoolPhi(v, f.True)...)
+			}
+		}
+	}
 	// code of a private helper used at one place is also guarded by what guards that place
 	if w := crossWorld; w != nil && in.Parent().Parent() == nil {
 		if s := w.soleSite(in.Parent()); s != nil && s.Parent() != in.Parent() {
@@ -1174,6 +1190,113 @@ func factsAt(in ssa.Instruction) []EdgeFact {
 		}
 	}
 	return fs
+}
+
+// impliedByBoolResult: v is a bool result of a call of a virtually inlined helper, known to be `want`: the facts common to
+// all of the helper's returns that can produce that value (a constant result of the other polarity cannot; a computed
+// result contributes itself as a fact).
+func impliedByBoolResult(v ssa.Value, want bool) []EdgeFact {
+	var call *ssa.Call
+	idx := 0
+	switch x := v.(type) {
+	case *ssa.Call:
+		call = x
+	case *ssa.Extract:
+		call, _ = x.Tuple.(*ssa.Call)
+		idx = x.Index
+	}
+	if call == nil {
+		return nil
+	}
+	h := inlinedCallee(call)
+	if h == nil {
+		return nil
+	}
+	res := h.Signature.Results()
+	if idx >= res.Len() {
+		return nil
+	}
+	if bt, isB := res.At(idx).Type().Underlying().(*types.Basic); !isB || bt.Kind() != types.Bool {
+		return nil
+	}
+	var common []EdgeFact
+	first := true
+	for _, b := range h.Blocks {
+		ret, ok := b.Instrs[len(b.Instrs)-1].(*ssa.Return)
+		if !ok || len(ret.Results) != res.Len() {
+			continue
+		}
+		rv := ret.Results[idx]
+		if isConstBool(rv, !want) {
+			continue
+		}
+		fs := dominatingFacts(b)
+		for i := range fs {
+			fs[i] = normFact(fs[i])
+		}
+		if !isConstBool(rv, want) {
+			if _, isPhi := rv.(*ssa.Phi); isPhi {
+				return nil // merged result: not decided here
+			}
+			fs = append(fs, normFact(EdgeFact{rv, want}))
+		}
+		if first {
+			common, first = fs, false
+			continue
+		}
+		var keep []EdgeFact
+		for _, f := range common {
+			for _, g := range fs {
+				if f.Cond == g.Cond && f.True == g.True {
+					keep = append(keep, f)
+					break
+				}
+			}
+		}
+		common = keep
+	}
+	return common
+}
+
+// impliedByBoolPhi: phi merges bool values and is known to be `want`: the facts common to all incoming edges that can carry
+// that value (an edge carrying the constant of the other polarity cannot; a computed value contributes itself as a fact).
+func impliedByBoolPhi(phi *ssa.Phi, want bool) []EdgeFact {
+	var common []EdgeFact
+	first := true
+	for i, e := range phi.Edges {
+		if isConstBool(e, !want) {
+			continue
+		}
+		if _, nested := e.(*ssa.Phi); nested {
+			return nil
+		}
+		pred := phi.Block().Preds[i]
+		fs := dominatingFacts(pred)
+		if ef, has := edgeFact(pred, phi.Block()); has {
+			fs = append(fs, ef)
+		}
+		for k := range fs {
+			fs[k] = normFact(fs[k])
+		}
+		if !isConstBool(e, want) {
+			fs = append(fs, normFact(EdgeFact{e, want}))
+		}
+		if first {
+			common, first = fs, false
+			continue
+		}
+		var keep []EdgeFact
+		for _, f := range common {
+			for _, g := range fs {
+				if f.Cond == g.Cond && f.True == g.True {
+					keep = append(keep, f)
+					break
+				}
+			}
+		}
+		common = keep
+	}
+	return common
 }
 
 // impliedByNilError: v is the error result of a call of a virtually inlined helper: the facts common to all of the helper's
